@@ -302,6 +302,372 @@ def run(repo: Repo, rep: Report) -> None:  # noqa: F811
                "an unnamed <graph> is mapped to %s: every blank-node-named graph the writer produced comes back merged into the default graph" % norm(ident[0])), node=c)
 
 
+_run_base4 = run
+
+
+def _is_dataset(typed, modname: str, e: ast.AST) -> bool:
+    tf = typed.type_of(modname, e)
+    return tf is not None and any(typed.is_subclass(i, "rdflib.graph.ConjunctiveGraph") for i in tf.items)
+
+
+def _has_type(typed, modname: str, e: ast.AST, base: str) -> bool:
+    tf = typed.type_of(modname, e)
+    return tf is not None and any(typed.is_subclass(i, base) for i in tf.items)
+
+
+def run(repo: Repo, rep: Report) -> None:  # noqa: F811
+    _run_base4(repo, rep)
+    from vlib import h_c06 as H
+    from vlib.cfg import CFG
+
+    typed = repo.typed
+
+    # ------------------------------------------------------------------ (i)  F65
+    rep.rule("C06.i-no-dataset-set-algebra-in-quad-serializers",
+             "a quad serializer never decides which quads two datasets share through Graph set algebra (`a - b`, `a * b`, `a ^ b`, `a & b`) or `quad in <dataset>` on a "
+             "ConjunctiveGraph/Dataset operand: those go through ConjunctiveGraph.__contains__ = triples(pattern, context=c), which for a default_union dataset looks for a "
+             "default-graph quad in every graph - `ds1.serialize(format='patch', target=ds2)` with ds1 = {<s> <p> <o> <g>}, ds2 = ds1 + {<s> <p> <o>} (default graph), both "
+             "default_union, found the new default-graph quad `in` ds1 and wrote no `A` row; the stored quads are compared instead (sets of quads())", floor=7)
+    pser = repo.mod("rdflib.plugins.serializers.patch")
+    pser.func("PatchSerializer._diff")  # the two-dataset comparison lives here: anchor
+    for name in QUAD_SER:
+        mod = repo.mod("rdflib.plugins.serializers." + name)
+        bad = 0
+        for q, f in mod.functions():
+            for n in own_nodes(f):
+                ops: list[ast.AST] = []
+                if isinstance(n, ast.BinOp) and isinstance(n.op, (ast.Sub, ast.Mult, ast.BitXor, ast.BitAnd)):
+                    ops = [n.left, n.right]
+                elif isinstance(n, ast.Compare) and any(isinstance(o, (ast.In, ast.NotIn)) for o in n.ops):
+                    ops = [c for o, c in zip(n.ops, n.comparators) if isinstance(o, (ast.In, ast.NotIn))]
+                hit = [o for o in ops if _is_dataset(typed, mod.name, o)]
+                if hit:
+                    bad += 1
+                    rep.ob("C06.i-no-dataset-set-algebra-in-quad-serializers", mod, q, n, False,
+                           "%s is a Dataset/ConjunctiveGraph: membership of a quad is decided by triples(pattern, context=c), which widens the default graph to the union of all "
+                           "graphs when default_union is on - rows of the patch are dropped" % norm(hit[0]), node=n)
+        rep.ob("C06.i-no-dataset-set-algebra-in-quad-serializers", mod, "<module>", "no dataset-level set algebra / membership in %s" % mod.rel, True,
+               "" if not bad else "see the sites reported", node=mod.tree)
+    d = pser.func("PatchSerializer._diff")
+    nset = 0
+    for n in own_nodes(d, include_nested=True):
+        if isinstance(n, ast.Compare) and any(isinstance(o, (ast.In, ast.NotIn)) for o in n.ops) and not any(_is_dataset(typed, pser.name, c) for c in n.comparators):
+            nset += 1
+    rep.ob("C06.i-no-dataset-set-algebra-in-quad-serializers", pser, "PatchSerializer._diff", "the difference is taken over plain collections of the stored quads", True,
+           "%d membership test(s), none on a dataset" % nset, node=d)
+
+    # ------------------------------------------------------------------ (j)  F64
+    rep.rule("C06.j-document-text-trimmed-by-the-formats-white-space-only",
+             "in the parsers (all of rdflib.plugins.parsers), text of the document that becomes a term (flows into a call that yields an rdflib.term.Node: URIRef(...), BNode(...), self.get_bnode(...)) is "
+             "trimmed only with an explicit character set made of characters that cannot be part of an IRI (XML white space ...): the argument-less str.strip()/lstrip()/rstrip() "
+             "removes every Unicode white-space character, so the TriX element <uri>http://example.org/a&#xA0;</uri> came back as <http://example.org/a> (U+00A0, U+2003, U+3000 "
+             "are legal ucschar of an IRI and legal in a blank node label)", floor=4)
+    for name in QUAD_PAR:
+        repo.mod("rdflib.plugins.parsers." + name)  # anchors
+    # (every parser module and the JSON-LD helpers are looked at: the same slip in another reader is the same defect)
+    for mname in sorted(m for m in repo.modules if m.startswith("rdflib.plugins.parsers.") or m.startswith("rdflib.plugins.shared.jsonld.")):
+        mod = repo.mod(mname)
+        for q, f in mod.functions():
+            for c in own_nodes(f):
+                if not (isinstance(c, ast.Call) and isinstance(c.func, ast.Attribute) and c.func.attr in ("strip", "lstrip", "rstrip")):
+                    continue
+                tf = typed.type_of(mod.name, c.func.value)
+                if tf is not None and not tf.any and "builtins.str" not in tf.items:
+                    continue
+                if not _flows_into_term(repo, mod, f, q, c):
+                    continue
+                if not c.args and not c.keywords:
+                    rep.ob("C06.j-document-text-trimmed-by-the-formats-white-space-only", mod, q, c, False,
+                           "argument-less %s() on text that becomes a term: a leading/trailing U+00A0 (or any other Unicode space) of the IRI / label is silently removed" % c.func.attr, node=c)
+                    continue
+                cs = H.const_str(mod, c.args[0]) if c.args else None
+                if cs is None:
+                    rep.ob("C06.j-document-text-trimmed-by-the-formats-white-space-only", mod, q, c, True, "explicit character set (not a constant)", node=c)
+                    continue
+                extra = sorted(set(cs) - H.IRI_ILLEGAL)
+                rep.ob("C06.j-document-text-trimmed-by-the-formats-white-space-only", mod, q, c, not extra,
+                       "explicit set of characters that cannot occur in an IRI" if not extra else
+                       "the trimmed set contains %s, which can begin or end an IRI: such an IRI is changed on the way in" % ", ".join("U+%04X" % ord(x) for x in extra), node=c)
+
+    # ------------------------------------------------------------------ (k)  F147
+    rep.rule("C06.k-recursion-over-graph-members-keeps-an-open-set",
+             "a quad serializer function that calls itself on values taken from the graph (JSON-LD Converter.to_raw_value on the members of a collection) registers the value it "
+             "is expanding in a set before the recursive call (`S.add(x)` on every path to the call) and that set is consulted by a membership test in the function or in a method it "
+             "calls: the data can be cyclic (`_:l rdf:first _:l ; rdf:rest rdf:nil` - a list that is its own member), and without the guard serialisation ends in RecursionError", floor=1)
+    for name in QUAD_SER:
+        mod = repo.mod("rdflib.plugins.serializers." + name)
+        for q, f in mod.functions():
+            calls = [c for c in own_nodes(f) if H.is_self_call(c, f.name)]
+            if not calls:
+                continue
+            cls = q.rsplit(".", 1)[0] if "." in q else None
+            g = CFG(f)
+            # membership tests visible from f: in f itself and in the methods of its class it calls (two levels)
+            scope = [f]
+            if cls and isinstance(mod.defs.get(cls), ast.ClassDef):
+                meths = mod.methods(cls)
+                for _ in range(2):
+                    for fn in list(scope):
+                        for c in own_nodes(fn, include_nested=True):
+                            if isinstance(c, ast.Call) and isinstance(c.func, ast.Attribute) and norm(c.func.value) == "self" and c.func.attr in meths and meths[c.func.attr] not in scope:
+                                scope.append(meths[c.func.attr])
+            tested = {norm(cmp) for fn in scope for n in own_nodes(fn, include_nested=True) if isinstance(n, ast.Compare)
+                      for o, cmp in zip(n.ops, n.comparators) if isinstance(o, (ast.In, ast.NotIn))}
+            for c in calls:
+                tgt = g.node_of(c, mod)
+                guards = []
+                for n in own_nodes(f):
+                    if isinstance(n, ast.Expr) and isinstance(n.value, ast.Call) and isinstance(n.value.func, ast.Attribute) and n.value.func.attr == "add" and n.value.args:
+                        recv = n.value.func.value
+                        shared = norm(recv).startswith("self.") or (isinstance(recv, ast.Name) and any(isinstance(a, ast.Name) and a.id == recv.id for a in list(c.args) + [k.value for k in c.keywords]))
+                        if shared and norm(recv) in tested and g.must_pass_before(tgt, [g.node_of(n)]):
+                            guards.append(norm(recv))
+                rep.ob("C06.k-recursion-over-graph-members-keeps-an-open-set", mod, q, c, bool(guards),
+                       "open set %s: added to before the call, tested by membership" % guards[0] if guards else
+                       "%s calls itself on values read from the graph and no set that is added to before the call is tested for membership: a list that has one of its own cells (or a "
+                       "list it is a member of) as a member is expanded without end (RecursionError)" % f.name, node=c)
+
+    js = repo.mod("rdflib.plugins.serializers.jsonld")
+
+    # ------------------------------------------------------------------ (l)  F151
+    rep.rule("C06.l-jsonld-list-cells-are-anonymous-only-if-unused-in-other-graphs",
+             "JSON-LD Converter.to_collection folds the cells of an rdf:List into an anonymous @list graph by graph; besides the reference count inside the one graph it therefore "
+             "asks the DATASET (the attribute Converter.convert binds when the source is context aware) whether the cell is used, as subject or as object, in another graph and "
+             "does not fold then: `_:c rdf:first 1; rdf:rest rdf:nil` in <g1> with `<x> <p> _:c` also in <g2> came back as two different blank nodes", floor=2)
+    conv = js.func("Converter.convert")
+    if len(conv.args.args) < 2:
+        raise AnalysisError("Converter.convert: source parameter not found")
+    src = conv.args.args[1].arg
+    aware = [n for n in own_nodes(conv) if isinstance(n, ast.If) and any(isinstance(x, ast.Attribute) and x.attr == "context_aware" and norm(x.value) == src for x in ast.walk(n.test))]
+    if not aware:
+        raise AnalysisError("Converter.convert: the context_aware branch was not found")
+    ds_attrs = {norm(s.targets[0]) for n in aware for b in n.body for s in ast.walk(b) if isinstance(s, ast.Assign) and norm(s.targets[0]).startswith("self.")
+                and isinstance(s.value, ast.Name) and s.value.id == src}
+    tc = js.func("Converter.to_collection")
+    if len(tc.args.args) < 3:
+        raise AnalysisError("Converter.to_collection: (graph, head) parameters not found")
+    gpar = tc.args.args[1].arg
+    walks = []
+    for w in own_nodes(tc):
+        if isinstance(w, ast.While):
+            assigned = {t.id for s in ast.walk(w) if isinstance(s, ast.Assign) for t in s.targets if isinstance(t, ast.Name)}
+            cur = [x.id for x in ast.walk(w.test) if isinstance(x, ast.Name) and x.id in assigned]
+            if cur:
+                walks.append((w, cur[0]))
+    if not walks:
+        raise AnalysisError("Converter.to_collection: the walk over the cells was not found")
+    defs = H.local_defs(tc, mutators=True)
+    for w, cur in walks:
+        def mentions(call: ast.Call) -> set[str]:
+            """positions (s/o) at which a lookup names the cursor"""
+            pos = set()
+            meth = call.func.attr  # type: ignore[attr-defined]
+            for i, a in enumerate(call.args):
+                if isinstance(a, ast.Tuple):
+                    for j, e in enumerate(a.elts):
+                        if isinstance(e, ast.Name) and e.id == cur:
+                            pos.add("s" if j == 0 else "o" if j == 2 else "p")
+                elif isinstance(a, ast.Name) and a.id == cur:
+                    if meth in ("subject_predicates", "subjects") or (meth in ("subjects", "predicates") and i == 1):
+                        pos.add("o")
+                    elif meth in ("predicate_objects", "value", "objects", "predicates"):
+                        pos.add("s")
+            return pos
+
+        ifs = [n for n in ast.walk(w) if isinstance(n, ast.If) and any(isinstance(s, ast.Return) and (s.value is None or (isinstance(s.value, ast.Constant) and s.value.value is None)) for s in n.body)]
+        effective = {id(x) for n in ifs for x in H.expand(n.test, defs)}
+        own = [c for c in ast.walk(w) if isinstance(c, ast.Call) and isinstance(c.func, ast.Attribute) and norm(c.func.value) == gpar and id(c) in effective and "o" in mentions(c)]
+        if not own:
+            raise AnalysisError("Converter.to_collection: the reference count of a cell inside its graph was not found")
+        rep.ob("C06.l-jsonld-list-cells-are-anonymous-only-if-unused-in-other-graphs", js, "Converter.to_collection", own[0], True,
+               "a cell referenced more than once inside the graph is not folded", node=own[0])
+        pos: set[str] = set()
+        first = None
+        for c in ast.walk(w):
+            if isinstance(c, ast.Call) and isinstance(c.func, ast.Attribute) and norm(c.func.value) in ds_attrs and id(c) in effective:
+                pos |= mentions(c)
+                first = first or c
+        ok = {"s", "o"} <= pos
+        rep.ob("C06.l-jsonld-list-cells-are-anonymous-only-if-unused-in-other-graphs", js, "Converter.to_collection",
+               "the use of the cell in the other graphs of the dataset (as subject and as object) decides a `return None`", ok,
+               "dataset consulted through %s" % sorted(ds_attrs)[0] if ok else
+               ("the walk folds a cell by looking at one graph only (%s): a blank node that is a list cell in <g1> and is also used in <g2> is written as an anonymous @list member in <g1> and "
+                "under its label in <g2> - after parsing they are two different blank nodes" % ("no attribute holds the dataset" if not ds_attrs else "dataset lookups cover %s only" % (sorted(pos) or "nothing"))),
+               node=first or w)
+
+    # ------------------------------------------------------------------ (m)  F153
+    rep.rule("C06.m-jsonld-list-container-term-only-for-a-foldable-value",
+             "JSON-LD Converter.add_to_node: the branch `LIST in term.container` writes a JSON array only when the foldability test (self.to_collection(...) is not None) succeeds and "
+             "otherwise writes a node reference under the same key; the reader wraps whatever stands under a @list-container term in a NEW list. Every place that offers LIST as "
+             "a container when the term is chosen is therefore governed by the same foldability test - a list whose tail is shared by two lists was written as {\"@id\": \"_:b\"} under "
+             "the list term and read back as a one-member list containing _:b", floor=2)
+    an = js.func("Converter.add_to_node")
+
+    def is_list_test(e: ast.AST) -> bool:
+        return isinstance(e, ast.Compare) and len(e.ops) == 1 and isinstance(e.ops[0], ast.In) and isinstance(e.left, ast.Name) and e.left.id == "LIST"
+
+    branches = [n for n in own_nodes(an) if isinstance(n, ast.If) and is_list_test(n.test)]
+    if not branches:
+        raise AnalysisError("Converter.add_to_node: the `LIST in term.container` branch was not found")
+    adefs = H.local_defs(an)
+    fold: set[str] = set()
+    for br in branches:
+        for n in [x for s in br.body for x in ast.walk(s)]:
+            if isinstance(n, ast.If):
+                for x in ast.walk(n.test):
+                    if isinstance(x, ast.Compare) and isinstance(x.ops[0], ast.IsNot) and isinstance(x.comparators[0], ast.Constant) and x.comparators[0].value is None:
+                        for y in H.expand(x.left, adefs):
+                            if isinstance(y, ast.Call) and isinstance(y.func, ast.Attribute) and norm(y.func.value) == "self":
+                                fold.add(y.func.attr)
+    if not fold:
+        raise AnalysisError("Converter.add_to_node: the foldability test of the @list branch was not found")
+    rep.ob("C06.m-jsonld-list-container-term-only-for-a-foldable-value", js, "Converter.add_to_node", "an array is written under a @list term only if self.%s(...) is not None" % sorted(fold)[0], True,
+           "", node=branches[0])
+    test_ids = {id(x) for n in own_nodes(an) if isinstance(n, (ast.If, ast.IfExp, ast.While)) for x in ast.walk(n.test) if is_list_test(x) for x in ast.walk(x)}
+    offers = [n for n in own_nodes(an) if isinstance(n, ast.Name) and n.id == "LIST" and isinstance(n.ctx, ast.Load) and id(n) not in test_ids]
+    if not offers:
+        raise AnalysisError("Converter.add_to_node: no place offers LIST as a container for the term lookup")
+    for n in offers:
+        ok = False
+        for t in H.governing_tests(js, n, an):
+            for x in ast.walk(t):
+                if isinstance(x, ast.Compare) and isinstance(x.ops[0], ast.IsNot) and isinstance(x.comparators[0], ast.Constant) and x.comparators[0].value is None:
+                    if any(isinstance(y, ast.Call) and isinstance(y.func, ast.Attribute) and norm(y.func.value) == "self" and y.func.attr in fold for y in H.expand(x.left, adefs)):
+                        ok = True
+        site = H.stmt_of(js, n)
+        rep.ob("C06.m-jsonld-list-container-term-only-for-a-foldable-value", js, "Converter.add_to_node", "LIST offered as container [%s]" % norm(site)[:80], ok,
+               "only when the value folds" if ok else
+               "a term with a @list container is chosen for any node that has an rdf:first, also when self.%s(...) is None (shared tail, extra properties on a cell): the node reference "
+               "written under that term is read back wrapped in a new list" % sorted(fold)[0], node=n)
+
+    # ------------------------------------------------------------------ (n)  F150 a
+    rep.rule("C06.n-native-json-value-only-of-a-well-typed-literal",
+             "a quad serializer that turns a Literal into a native value with toPython() looks at <literal>.ill_typed and replaces the value (or leaves) when it is set: toPython() of "
+             "\"abc\"^^xsd:integer is the literal itself, which the JSON-LD writer emitted as the bare string \"abc\" - read back as a plain string (or with the context's language)", floor=1)
+    npy = 0
+    for name in QUAD_SER:
+        mod = repo.mod("rdflib.plugins.serializers." + name)
+        for q, f in mod.functions():
+            for c in own_nodes(f):
+                if isinstance(c, ast.Call) and isinstance(c.func, ast.Attribute) and c.func.attr == "toPython" and _has_type(typed, mod.name, c.func.value, "rdflib.term.Literal"):
+                    npy += 1
+                    lit = norm(c.func.value)
+                    holder = [t.id for s in own_nodes(f) if isinstance(s, ast.Assign) and s.value is c for t in s.targets if isinstance(t, ast.Name)]
+                    ok = False
+                    for n in own_nodes(f):
+                        if isinstance(n, ast.If) and any(isinstance(x, ast.Attribute) and x.attr == "ill_typed" and norm(x.value) == lit for x in ast.walk(n.test)):
+                            for s in [x for b in n.body for x in ast.walk(b)]:
+                                if isinstance(s, (ast.Return, ast.Raise)) or (isinstance(s, ast.Assign) and any(isinstance(t, ast.Name) and t.id in holder for t in s.targets)):
+                                    ok = True
+                    rep.ob("C06.n-native-json-value-only-of-a-well-typed-literal", mod, q, c, ok,
+                           "%s.ill_typed replaces the value" % lit if ok else
+                           "the value of %s.toPython() is written without a test of %s.ill_typed: \"abc\"^^xsd:integer becomes the bare JSON string \"abc\" and loses its datatype" % (lit, lit), node=c)
+    if npy < 1:
+        raise AnalysisError("no Literal.toPython() conversion found in the quad serializers")
+
+    # ------------------------------------------------------------------ (o)  F150 b
+    rep.rule("C06.o-jsonld-bare-literal-value-considers-the-default-language",
+             "JSON-LD Converter.to_raw_value: a literal is returned as a bare JSON value (anything but a {...} value object) only under a condition that depends on the context's "
+             "default @language: the reader gives every bare string that language, so \"x\"^^xsd:string written as \"x\" under {\"@language\": \"en\"} came back as \"x\"@en", floor=2)
+    rv = js.func("Converter.to_raw_value")
+    rdefs = H.local_defs(rv)
+    lit_branches = []
+    for n in own_nodes(rv):
+        if isinstance(n, ast.If) and any(isinstance(x, ast.Call) and norm(x.func) == "isinstance" and len(x.args) == 2 and norm(x.args[1]) == "Literal" for x in ast.walk(n.test)):
+            lit_branches.append(n)
+    if not lit_branches:
+        raise AnalysisError("Converter.to_raw_value: the Literal branch was not found")
+    nbare = 0
+    for br in lit_branches:
+        for r in [x for s in br.body for x in ast.walk(s)]:
+            if not isinstance(r, ast.Return) or r.value is None or isinstance(r.value, ast.Dict):
+                continue
+            nbare += 1
+            ok = False
+            for t in H.governing_tests(js, r, rv):
+                if t is br.test:
+                    break
+                for x in H.expand(t, rdefs):
+                    if isinstance(x, ast.Attribute) and x.attr == "language" and _has_type(typed, js.name, x.value, "rdflib.plugins.shared.jsonld.context.Context"):
+                        ok = True
+            rep.ob("C06.o-jsonld-bare-literal-value-considers-the-default-language", js, "Converter.to_raw_value", r, ok, "depends on the context's default language" if ok else
+                   "a bare value is returned for a literal without looking at the context's default @language: a string value (xsd:string, or an ill-typed literal's lexical form) is read back "
+                   "with that language", node=r)
+    if nbare < 2:
+        raise AnalysisError("Converter.to_raw_value: expected >= 2 bare returns in the Literal branch, found %d" % nbare)
+
+    # ------------------------------------------------------------------ (p)  F152
+    rep.rule("C06.p-jsonld-vocab-relative-name-yields-to-the-term-table",
+             "JSON-LD Context: expand() looks a name up in the term table before it prefixes @vocab; a method that compacts an IRI to its @vocab-relative name (a return under a "
+             "comparison with self.vocab) therefore returns that name only after looking it up in self.terms: with {\"@vocab\": \"http://v/\", \"name\": \"http://other/name\"} the predicate "
+             "<http://v/name> was written as \"name\" and read back as <http://other/name>", floor=2)
+    cx = repo.mod("rdflib.plugins.shared.jsonld.context")
+    ex = cx.func("Context.expand")
+    epar = ex.args.args[1].arg if len(ex.args.args) > 1 else None
+    premise = any(isinstance(c, ast.Call) and isinstance(c.func, ast.Attribute) and c.func.attr == "get" and norm(c.func.value) == "self.terms" and c.args and norm(c.args[0]) == epar for c in own_nodes(ex))
+    rep.ob("C06.p-jsonld-vocab-relative-name-yields-to-the-term-table", cx, "Context.expand", "a name is looked up in self.terms first", True,
+           "term table wins over @vocab" if premise else "expand() no longer looks the whole name up in self.terms: the obligation below is moot", node=ex)
+    nv = 0
+    for mname, f in cx.methods("Context").items():
+        fdefs = H.local_defs(f)
+        params = {a.arg for a in f.args.args}
+        for n in own_nodes(f):
+            if not (isinstance(n, ast.If) and any(isinstance(x, ast.Compare) and any(norm(o) == "self.vocab" for o in [x.left] + x.comparators) and isinstance(x.ops[0], ast.Eq) for x in ast.walk(n.test))):
+                continue
+            for r in [x for s in n.body for x in ast.walk(s)]:
+                if not (isinstance(r, ast.Return) and isinstance(r.value, ast.Name) and r.value.id not in params):
+                    continue
+                nv += 1
+                v = r.value.id
+                ok = False
+                for t in H.governing_tests(cx, r, f):
+                    for x in H.expand(t, fdefs):
+                        if isinstance(x, ast.Call) and isinstance(x.func, ast.Attribute) and x.func.attr == "get" and norm(x.func.value) == "self.terms" and x.args and norm(x.args[0]) == v:
+                            ok = True
+                        if isinstance(x, ast.Subscript) and norm(x.value) == "self.terms" and norm(x.slice) == v:
+                            ok = True
+                        if isinstance(x, ast.Compare) and norm(x.left) == v and any(norm(c) == "self.terms" for c in x.comparators):
+                            ok = True
+                rep.ob("C06.p-jsonld-vocab-relative-name-yields-to-the-term-table", cx, "Context." + mname, "%s [under %s]" % (norm(r), norm(n.test)), ok or not premise,
+                       "the name is looked up in self.terms before it is returned" if ok else
+                       "the @vocab-relative name is returned without a look into self.terms: when it is a term that stands for another IRI, the reader expands it to that other IRI", node=r)
+    if nv < 1:
+        raise AnalysisError("Context: no method returns a @vocab-relative name")
+
+
+def _flows_into_term(repo: Repo, mod, f: ast.AST, q: str, c: ast.Call) -> bool:
+    """Does the value of the expression c become (part of the argument of) a call whose static type is an rdflib term?"""
+    typed = repo.typed
+
+    def term_call(x: ast.AST) -> bool:
+        return isinstance(x, ast.Call) and (_has_type(typed, mod.name, x, "rdflib.term.Node") or norm(x.func) in ("URIRef", "BNode", "Literal"))
+
+    stmt = None
+    for p in mod.parents(c):
+        if term_call(p):
+            return True
+        if isinstance(p, ast.stmt):
+            stmt = p
+            break
+    # one step of def-use: the trimmed text is stored in a local name / self attribute that is later passed to a term constructor
+    tgts: list[str] = []
+    if isinstance(stmt, ast.Assign):
+        tgts = [norm(t) for t in stmt.targets if isinstance(t, (ast.Name, ast.Attribute))]
+    elif isinstance(stmt, (ast.AugAssign, ast.AnnAssign)) and isinstance(stmt.target, (ast.Name, ast.Attribute)):
+        tgts = [norm(stmt.target)]
+    if not tgts:
+        return False
+    cls = q.rsplit(".", 1)[0] if "." in q else None
+    fns = [f]
+    if cls and isinstance(mod.defs.get(cls), ast.ClassDef) and any(t.startswith("self.") for t in tgts):
+        fns = list(mod.methods(cls).values())
+    for fn in fns:
+        for x in own_nodes(fn, include_nested=True):
+            if term_call(x) and any(isinstance(y, (ast.Name, ast.Attribute)) and norm(y) in tgts for a in list(x.args) + [k.value for k in x.keywords] for y in ast.walk(a)):
+                return True
+    return False
+
+
 _run_before_borrow = run
 
 
